@@ -2192,12 +2192,12 @@ class Node(_protocols.NodeProtocol, _display.PrettyPrintable):
         self._metadata: _metadata.MetadataStore | None = None
         self._metadata_props: dict[str, str] | None = metadata_props
         self.device_configurations: tuple[NodeDeviceConfiguration, ...] = device_configurations
+        self.doc_string = doc_string
         # _graph is set by graph.append
         self._graph: Graph | None = None
-        # Add the node to the graph if graph is specified
+        # Add the node to the graph if graph is specified (the node is fully constructed at this point)
         if graph is not None:
             graph.append(self)
-        self.doc_string = doc_string
 
         # Add the node as a use of the inputs
         for i, input_value in enumerate(self._inputs):
